@@ -72,7 +72,11 @@ func putVarint(b []byte, v uint64) []byte {
 }
 
 // getVarint decodes a minimal-length multibyte integer (at most 9 bytes).
-func getVarint(in []byte) (v uint64, n int, err error) {
+func getVarint(in []byte) (v uint64, n int, err error) { return getVarintL(in, false) }
+
+// getVarintL is getVarint; with lenient set a padded (non-minimal) encoding is accepted, as the
+// format only obliges encoders to use the shortest form.
+func getVarintL(in []byte, lenient bool) (v uint64, n int, err error) {
 	for i := 0; i < 9; i++ {
 		if i >= len(in) {
 			return 0, 0, ErrTruncated
@@ -80,7 +84,7 @@ func getVarint(in []byte) (v uint64, n int, err error) {
 		b := in[i]
 		v |= uint64(b&0x7F) << uint(7*i)
 		if b&0x80 == 0 {
-			if b == 0 && i > 0 {
+			if b == 0 && i > 0 && !lenient {
 				return 0, 0, errors.New("ref: non-minimal multibyte integer")
 			}
 			return v, i + 1, nil
@@ -127,6 +131,16 @@ type XZStream struct {
 // DecodeXZ strictly decodes a .xz file (one or more streams with stream
 // padding in between and at the end).
 func DecodeXZ(in []byte, maxOut int) (out []byte, streams []XZStream, err error) {
+	return decodeXZ(in, maxOut, false)
+}
+
+// DecodeXZLenient is DecodeXZ except that multibyte integers may be encoded in a longer than
+// the shortest form; everything else is checked as strictly.
+func DecodeXZLenient(in []byte, maxOut int) (out []byte, streams []XZStream, err error) {
+	return decodeXZ(in, maxOut, true)
+}
+
+func decodeXZ(in []byte, maxOut int, lenient bool) (out []byte, streams []XZStream, err error) {
 	pos := 0
 	for {
 		if pos == len(in) && len(streams) > 0 {
@@ -134,7 +148,7 @@ func DecodeXZ(in []byte, maxOut int) (out []byte, streams []XZStream, err error)
 		}
 		var s XZStream
 		var o []byte
-		o, s, err = decodeXZStream(in, pos, maxOut-len(out))
+		o, s, err = decodeXZStream(in, pos, maxOut-len(out), lenient)
 		out = append(out, o...)
 		if err != nil {
 			return out, streams, err
@@ -164,7 +178,7 @@ func DecodeXZ(in []byte, maxOut int) (out []byte, streams []XZStream, err error)
 	}
 }
 
-func decodeXZStream(in []byte, off int, maxOut int) (out []byte, s XZStream, err error) {
+func decodeXZStream(in []byte, off int, maxOut int, lenient bool) (out []byte, s XZStream, err error) {
 	s.Off = off
 	if len(in)-off < 12 {
 		return nil, s, ErrTruncated
@@ -214,7 +228,7 @@ func decodeXZStream(in []byte, off int, maxOut int) (out []byte, s XZStream, err
 		lim := len(hd) - 4
 		b.CompField, b.UncField = -1, -1
 		if b.Flags&0x40 != 0 {
-			v, n, e := getVarint(hd[q:lim])
+			v, n, e := getVarintL(hd[q:lim], lenient)
 			if e != nil {
 				return out, s, fmt.Errorf("ref: compressed size field: %v", e)
 			}
@@ -225,7 +239,7 @@ func decodeXZStream(in []byte, off int, maxOut int) (out []byte, s XZStream, err
 			q += n
 		}
 		if b.Flags&0x80 != 0 {
-			v, n, e := getVarint(hd[q:lim])
+			v, n, e := getVarintL(hd[q:lim], lenient)
 			if e != nil {
 				return out, s, fmt.Errorf("ref: uncompressed size field: %v", e)
 			}
@@ -235,7 +249,7 @@ func decodeXZStream(in []byte, off int, maxOut int) (out []byte, s XZStream, err
 			b.UncField = int64(v)
 			q += n
 		}
-		id, n, e := getVarint(hd[q:lim])
+		id, n, e := getVarintL(hd[q:lim], lenient)
 		if e != nil {
 			return out, s, fmt.Errorf("ref: filter id: %v", e)
 		}
@@ -243,7 +257,7 @@ func decodeXZStream(in []byte, off int, maxOut int) (out []byte, s XZStream, err
 		if id != 0x21 {
 			return out, s, fmt.Errorf("ref: unsupported filter id %#x", id)
 		}
-		ps, n, e := getVarint(hd[q:lim])
+		ps, n, e := getVarintL(hd[q:lim], lenient)
 		if e != nil {
 			return out, s, fmt.Errorf("ref: filter properties size: %v", e)
 		}
@@ -302,7 +316,7 @@ func decodeXZStream(in []byte, off int, maxOut int) (out []byte, s XZStream, err
 	// index
 	s.IndexOff = pos
 	q := pos + 1
-	cnt, n, e := getVarint(in[q:])
+	cnt, n, e := getVarintL(in[q:], lenient)
 	if e != nil {
 		return out, s, e
 	}
@@ -311,12 +325,12 @@ func decodeXZStream(in []byte, off int, maxOut int) (out []byte, s XZStream, err
 		return out, s, fmt.Errorf("ref: index lists %d records, stream has %d blocks", cnt, len(s.Blocks))
 	}
 	for i := range s.Blocks {
-		u, n, e := getVarint(in[q:])
+		u, n, e := getVarintL(in[q:], lenient)
 		if e != nil {
 			return out, s, e
 		}
 		q += n
-		v, n, e := getVarint(in[q:])
+		v, n, e := getVarintL(in[q:], lenient)
 		if e != nil {
 			return out, s, e
 		}
